@@ -8,6 +8,7 @@ import (
 	"path/filepath"
 	"sort"
 	"strings"
+	"time"
 
 	"verif/fw"
 	"verif/gen"
@@ -302,6 +303,11 @@ func c02CLI(c *fw.Case, env *fw.Env, o *fw.Obs, p *c02Params) *fw.Obs {
 	// two-argument commit must produce the table a direct ingest with that key produces
 	final, _ := os.ReadFile(fp)
 	fcols, frows, _ := gen.ParseCSV(final, 0)
+	// the file is older than any cache entry from here on (wrgl keeps a cache entry only while the file's mtime does not
+	// lie after the entry's whole-second time; without this the steps below would depend on where in a second they run)
+	old := time.Unix(1500000000, 0)
+	os.Chtimes(fp, old, old)
+	mon.Wrgl(wd, nil, "commit", "main", "refresh the cache", "--no-progress")
 	var alts [][]int
 	if len(p.T.PK) >= 2 {
 		alts = append(alts, p.T.PK[:1], []int{p.T.PK[1], p.T.PK[0]}, p.T.PK)
